@@ -12,6 +12,16 @@ from rules_more import (prop, kinds, requirement_functions, flag_answers, loop_r
 RESULT = "std::result::Result"
 
 
+def _flat(roles):
+    out = []
+    for r in roles:
+        if isinstance(r, tuple) and r[0] == "via":
+            out.extend(_flat(r[1]))
+        else:
+            out.append(r)
+    return out
+
+
 def summary_table(A):
     """For every requirement-summary function (one loop over the direct downstreams): the answer for 'no downstream left'
     (negative), and per (downstream state d, edge flag combination): the answers an iteration can return at once (early), whether
@@ -259,6 +269,74 @@ def check_C04(A, R, tier):
             R.ob("R4.6", "%s | every comparison says 'unaltered', every record exists | the verdict is not 'invalidated'" % short(b.name),
                  verdicts is not None and iv not in verdicts,
                  detail="possible verdicts: %s" % (sorted(A.uni.show(vt, x) for x in verdicts) if verdicts is not None else "unknown"))
+    # R4.7 'needed' is handed on transitively only through Ephemerals: an Output/Always upstream either runs on its own grounds or not
+    # at all; marking the inputs of a still undecided Output as needed makes its (up-to-date) Ephemeral inputs run for nothing ------
+    from rules_more import requirement_field
+    rf = requirement_field(A)
+    walkers = set()
+    for s in sorted(reach):
+        if s in C["Finished"] or s in C["Running"] or s in C["Ready"]:
+            continue
+        run = H[(K["consider"], s)]
+        wfn = set(w["fn"] for w in run.by_kind("write_edge") if w["proj"] == rf)
+        pfn = set(v["fn"] for v in run.by_kind("push_local")
+                  if any(isinstance(r_, tuple) and r_[0] == "nbr" and r_[2] == "Incoming" for r_ in _flat(v["key"][1])))
+        walkers |= (wfn & pfn)
+    R.info["transitive_requirement_walks"] = sorted(short(x) for x in walkers)
+    n = 0
+    for fn in sorted(walkers):
+        body = A.facts.body(fn)
+        for d in sorted(reach):
+            I, fr, out, col = forced_analysis(A, body, {}, cfgd=dict(label="C04W", default_states=fin(A.L.jobstate, [d])))
+            pushes = [x for k, x in I.rec.facts.items() if k[0] == "push_local"
+                      and any(isinstance(r_, tuple) and r_[0] == "nbr" and r_[2] == "Incoming" for r_ in _flat(x["key"][1]))]
+            n += 1
+            R.ob("R4.7", "%s | an upstream in state %s | the walk that marks dependencies as needed continues only through Ephemerals"
+                 % (short(fn), A.sname(d)), not pushes or A.kind_of(d) in cleanup_kinds,
+                 detail="the inputs of a job that is not an Ephemeral are marked as needed because one of its consumers is: its up-to-date "
+                        "Ephemeral inputs are executed although it may never run", site=A.site(pushes[0]) if pushes else "")
+    if walkers:
+        R.floor("R4.7", "upstream states examined in the transitive walk", n, 10)
+    # R4.8 the other direction (needed work is not lost): when the consider logic learns that a validated Ephemeral whose upstreams are
+    # still pending is needed, it marks all of the job's incoming dependencies as needed on every path - otherwise its own
+    # up-to-date Ephemeral inputs are judged unnecessary and skipped, and the job later runs without them
+    from rules_more import gate_functions, error_exit_blocks, residual_blocks, _must_follow, _lift
+    gates = gate_functions(A)
+    good_gates = [n_ for n_, g_ in gates.items() if g_["passing"] <= C["Finished"]]
+    if len(positive) == 1:
+        pos = list(positive)[0]
+        n = 0
+        for cb in fns:
+            for rb in req_bodies:
+                rt = rb.locals[0]
+                fty = rt.get("adt") if rt.get("adt") in A.uni.fin else [t_ for t_ in A.uni.fin if rt["s"].startswith("std::result::Result<%s," % t_)][0]
+                wrap = rt.get("adt") not in A.uni.fin
+                val = fin(fty, [pos])
+                rv = adt(RESULT, {0: (val,)}) if wrap else val
+                ov = {rb.name: (lambda rv_: (lambda I_, st_, fr_, bi_, t_, a_, sp_: [(rv_, st_)]))(rv)}
+                for gname in good_gates:
+                    ov[gname] = (lambda I_, st_, fr_, bi_, t_, a_, sp_: [(FALSE, st_)])
+                for s in pend:
+                    I, fr, out, col = forced_analysis(A, cb, ov, cfgd=dict(label="C04N", cell_init={"param": fin(A.L.jobstate, [s])}))
+                    asked = [x for k, x in I.rec.facts.items() if k[0] == "call" and x["callee"] == rb.name]
+                    gated = [x for k, x in I.rec.facts.items() if k[0] == "call" and x["callee"] in good_gates]
+                    if not asked or not gated:
+                        continue      # from this state the summary is not consulted while upstreams are pending
+                    ws = [x for k, x in I.rec.facts.items() if k[0] == "write_edge" and x["proj"] == rf
+                          and x["value"][0] == "fin" and set(x["value"][2]) == {pos}
+                          and is_role((x["b"], I.sym_info.get(x["b"], (frozenset(), None))[0]), "param")]
+                    blocks = set(b2 for b2 in (_lift(I, fr, x) for x in ws) if b2 is not None)
+                    okp = bool(ws)
+                    for c in asked:
+                        cbb = _lift(I, fr, c)
+                        if cbb is None or not _must_follow(A, I, fr, cb, cbb, blocks):
+                            okp = False
+                    n += 1
+                    R.ob("R4.8", "consider logic | %s, upstreams pending, a downstream needs it | all incoming dependencies are marked as needed"
+                         % A.sname(s), okp,
+                         detail="the Ephemeral is known to be needed but its own inputs are not told: its up-to-date Ephemeral upstreams are "
+                                "skipped and it later runs without them", site=A.site(asked[0]))
+        R.floor("R4.8", "validated states in which the summary is consulted while upstreams are pending", n, 1)
     R.explanation = ("Necessary conditions of 'only necessary work is executed', each over all paths of the code: Ephemerals nobody can need are "
                      "taken out of the graph at startup (complete candidate set, iterated to the fixpoint) and marked finished, and finished jobs "
                      "are never offered; a skippable job is offered only from an invalidated state or - Ephemerals - from a validated one, and "
